@@ -25,7 +25,7 @@ inductive Rule where
   | noQuery | queryNotObject | mutationNotObject | subscriptionNotObject
   | dirDupArg | dirArgNotInput
   | noFields | dupField | fieldNotOutput | dupArg | argNotInput
-  | resMissingParam | resPosOnly | resNeedsDefault | resPositional | resExtraRequired | resCollides
+  | resMissingParam | resPosOnly | resNeedsDefault | resPositional | resExtraRequired | resCollides | resNotCallable
   | notInterface | dupInterface | ifaceFieldMissing | ifaceFieldType | ifaceArgMissing | ifaceArgType
   | extraRequiredArg
   | unionEmpty | unionMemberNotObject | unionDup
@@ -41,7 +41,7 @@ def Rule.id : Rule → String
   | .noFields => "noFields" | .dupField => "dupField" | .fieldNotOutput => "fieldNotOutput"
   | .dupArg => "dupArg" | .argNotInput => "argNotInput"
   | .resMissingParam => "resMissingParam" | .resPosOnly => "resPosOnly" | .resNeedsDefault => "resNeedsDefault"
-  | .resPositional => "resPositional" | .resExtraRequired => "resExtraRequired" | .resCollides => "resCollides"
+  | .resPositional => "resPositional" | .resExtraRequired => "resExtraRequired" | .resCollides => "resCollides" | .resNotCallable => "resNotCallable"
   | .notInterface => "notInterface" | .dupInterface => "dupInterface"
   | .ifaceFieldMissing => "ifaceFieldMissing" | .ifaceFieldType => "ifaceFieldType"
   | .ifaceArgMissing => "ifaceArgMissing" | .ifaceArgType => "ifaceArgType"
@@ -52,7 +52,7 @@ def Rule.id : Rule → String
 def Rule.all : List Rule :=
   [.invalidName, .invalidTypeName, .noQuery, .queryNotObject, .mutationNotObject, .subscriptionNotObject,
    .dirDupArg, .dirArgNotInput, .noFields, .dupField, .fieldNotOutput, .dupArg, .argNotInput,
-   .resMissingParam, .resPosOnly, .resNeedsDefault, .resPositional, .resExtraRequired, .resCollides,
+   .resMissingParam, .resPosOnly, .resNeedsDefault, .resPositional, .resExtraRequired, .resCollides, .resNotCallable,
    .notInterface, .dupInterface, .ifaceFieldMissing, .ifaceFieldType, .ifaceArgMissing, .ifaceArgType,
    .extraRequiredArg, .unionEmpty, .unionMemberNotObject, .unionDup, .enumEmpty, .inputFieldNotInput]
 
@@ -158,16 +158,21 @@ structure Config where
   extraArgRequired : Bool
   /-- `field.subscription_resolver` goes through the resolver-signature rule -/
   subscriptionChecked : Bool
+  /-- the resolver-signature rule is also applied to the fields of INTERFACE types (which are never resolved) -/
+  ifaceResolverChecked : Bool
+  /-- a non-callable object in a resolver slot is reported (before: accepted as "cannot be inspected") -/
+  notCallableReported : Bool
   deriving DecidableEq, Repr
 
 /-- the tree with the proposed fixes C13-H7, C13-H1-H2-H3-H9, C13-H4-H5-H6, C13-H8 -/
-def Config.fixed : Config := ⟨false, false, false, true, true, true⟩
+def Config.fixed : Config := ⟨false, false, false, true, true, true, false, true⟩
 /-- the tree before them -/
-def Config.legacy : Config := ⟨true, true, true, false, false, false⟩
+def Config.legacy : Config := ⟨true, true, true, false, false, false, true, false⟩
 
 /-- what the source says today -/
 def currentConfig : Config :=
-  ⟨cfgMaskTypeName, cfgMaskDuplicate, cfgMaskImplType, cfgPreciseResolver, cfgExtraArgRequired, cfgSubscriptionChecked⟩
+  ⟨cfgMaskTypeName, cfgMaskDuplicate, cfgMaskImplType, cfgPreciseResolver, cfgExtraArgRequired, cfgSubscriptionChecked,
+   cfgIfaceResolverChecked, cfgNotCallableReported⟩
 
 /-! ### `SchemaValidator` methods -/
 
@@ -268,6 +273,7 @@ def resolverErrs (path : String) (args : List ArgD) (r : ResolverD) : List Err :
 
 /-- `_validate_resolver_arguments` -/
 def validateResolverArgumentsWith (c : Config) (path : String) (args : List ArgD) (r : ResolverD) : List Err :=
+  if !r.callable then (if c.notCallableReported then [⟨.resNotCallable, [path]⟩] else []) else
   if !r.inspectable then [] else
   if c.preciseResolver then resolverErrs path args r else resolverErrsLegacy path args r
 
@@ -279,11 +285,15 @@ def resolverPart (c : Config) (rv : Bool) (path : String) (args : List ArgD) : O
   | some r => if rv then validateResolverArgumentsWith c path args r else []
   | none => []
 
+/-- the resolver and the subscription resolver of a field against its arguments -/
+def resolversOfField (c : Config) (s : SchemaD) (rv : Bool) (t : TypeD) (f : FieldD) : List Err :=
+  resolverPart c rv (t.name ++ "." ++ f.name) f.args (pickResolver s t f) ++
+  (if c.subscriptionChecked then resolverPart c rv (t.name ++ "." ++ f.name) f.args f.subscriptionResolver else [])
+
 def fieldBodyWith (c : Config) (s : SchemaD) (rv : Bool) (t : TypeD) (f : FieldD) : List Err :=
   (if isOutputType s f.type then [] else [⟨.fieldNotOutput, [f.name, t.name, f.type.render]⟩]) ++
   validateArgumentsWith c s .dupArg .argNotInput (t.name ++ "." ++ f.name) f.args ++
-  resolverPart c rv (t.name ++ "." ++ f.name) f.args (pickResolver s t f) ++
-  (if c.subscriptionChecked then resolverPart c rv (t.name ++ "." ++ f.name) f.args f.subscriptionResolver else [])
+  (if t.kind == .object || c.ifaceResolverChecked then resolversOfField c s rv t f else [])
 
 /-- `validate_fields` -/
 def validateFieldsWith (c : Config) (s : SchemaD) (rv : Bool) (t : TypeD) : List Err :=
@@ -423,6 +433,8 @@ inductive Op where
   /-- plain assignment (documented): `schema.default_resolver = f` (level 0), `schema.types[T].default_resolver = f`
       (1), `field.resolver = f` (2), `field.subscription_resolver = f` (3); `same`: the very object already there -/
   | assignResolver (level : Nat) (typename fieldname : String) (r : ResolverD) (same : Bool)
+  /-- plain assignment `field.arguments = [...]` (new Argument objects) -/
+  | assignArguments (typename fieldname : String) (args : List ArgD)
   /-- `_replace_types_and_directives(types={name: new | None}, directives={name: new | None})`, entries in
       dict order; the flag says the new object IS the registered one (`new_type != original_type` is
       identity; for directives `new is directives.get(name)`). `healed`: the description after
@@ -449,6 +461,11 @@ def setFieldSubscription (s : SchemaD) (tn fn : String) (r : ResolverD) : Schema
   { s with types := s.types.map fun t =>
       if t.name == tn then { t with fields := t.fields.map fun f =>
         if f.name == fn then { f with subscriptionResolver := some r } else f } else t }
+
+def setFieldArgs (s : SchemaD) (tn fn : String) (args : List ArgD) : SchemaD :=
+  { s with types := s.types.map fun t =>
+      if t.name == tn then { t with fields := t.fields.map fun f =>
+        if f.name == fn then { f with args := args } else f } else t }
 
 def setDefaultResolver (s : SchemaD) (tn : String) (r : ResolverD) : SchemaD :=
   { s with types := s.types.map fun t => if t.name == tn then { t with defaultResolver := some r } else t }
@@ -582,6 +599,9 @@ def step (st : CacheState) : Op → CacheState × Outcome
       | 2 => setFieldResolver st.schema tn fn r
       | _ => setFieldSubscription st.schema tn fn r
     ({ st with schema := s', isValid := st.isValid && !cfgCacheTracksAssignments }, .ok)
+  | .assignArguments tn fn args =>
+    -- the arguments of every field belong to what `validate()` compares (fix C13-HHH3)
+    ({ st with schema := setFieldArgs st.schema tn fn args, isValid := st.isValid && !cfgCacheTracksArguments }, .ok)
   | .replaceTypes entries dirEntries healed =>
     replaceStep replaceAccumulates replaceAtomic replaceDirectivesBust st entries dirEntries healed
 
